@@ -13,6 +13,7 @@ def run(ctx):
 
 
 def design(ctx):
-    import os
-    if os.path.exists(os.path.join(os.path.dirname(os.path.dirname(os.path.abspath(__file__))), "spec", "parallel", "MapStream.tla")):
-        mc(ctx, "parallel", "MapStream", "mc_ms.cfg", "MapStream I-layer", coverage=False)
+    # D: dispatcher / workers / errgroup / consumer / Close of MapStream, every interleaving: token bound,
+    #    gap bound, no result beyond a failure, error provenance, End completeness, source closed once, no stuck call
+    for cfg in ("mc_ms.cfg", "mc_ms_src.cfg", "mc_ms_b1.cfg") + (() if ctx.quick() else ("mc_ms_p3.cfg",)):
+        mc(ctx, "parallel", "MapStream", cfg, "MapStream I-layer " + cfg, coverage=False)
